@@ -169,10 +169,11 @@ _pb("C05", "contract-based deductive verification (pyvc) of the grouping loop of
     "(block contracts on the real statements). The transformations as a whole are outside the reach of pyvc (lazy generator "
     "consumed while the tree it walks is mutated) and are bounded only.",
     "grouping loop and block contracts proved, the property itself bounded (exhaustive shapes n<=5 x head assignments); 'other'")
-_pb("C13", "contract-based deductive verification (pyvc) of the mover steps of the three punctuation transformations and of the punctuation_verylow guard (a move never empties a constituent); bounded stand-in for the documented postconditions",
-    "Each re-attachment step keeps links consistent, moves only the punctuation token, and (verylow) the real guard expression "
-    "implies the old parent keeps a child. Where the tokens end up (the three documented postconditions) is bounded only.",
-    "block contracts and guard lemma proved, placement postconditions bounded; 'other'")
+_pb("C13", "contract-based deductive verification (pyvc) of the mover steps of the three punctuation transformations and of the guards in front of them (a move never empties a constituent: verylow, root, symetrify); bounded stand-in for the documented postconditions",
+    "Each re-attachment step keeps links consistent and moves only the punctuation token, and for all three transformations "
+    "the real guard expression in front of the step implies that the parent the token is taken from has at least two "
+    "children (so it keeps one). Where the tokens end up (the three documented postconditions) is bounded only.",
+    "block contracts and guard lemmas proved, placement postconditions bounded; 'other'")
 _pb("C15", "contract-based deductive verification (pyvc) of negra_mark_heads, of transformconst.get_headpos_by_rule (four nested loops over a symbolic rule table, parse_label contract) and of mark_heads_by_rules (preset selection with its ValueError clauses, marking loop over the preorder/children contracts, heap frame on the head flag); bounded cross-check on enumerated trees",
     "negra_mark_heads is proved for every well-formed tree: after the call every constituent below the argument has exactly the "
     "child selected by the NeGra heuristic (leftmost HD, else rightmost NK, else leftmost) marked as head and all other children "
